@@ -301,11 +301,14 @@ func runMesh(m *mesh, keys []keyInfo) {
 		nodes[i] = newFloodSub(ctx)
 	}
 	defer func() {
+		// not waited for: after a panic of an Execute goroutine the router mutex stays locked
 		for _, fs := range nodes {
-			fs.Close()
+			go fs.Close()
 		}
 	}()
 	var mu sync.Mutex
+	var crashed atomic.Value
+	dead := func() bool { return crashed.Load() != nil }
 	lastEvent := time.Now()
 	handed := map[[2]int]int{} // (publish, node) -> handler invocations
 	linkCounts := map[[3]int]map[int]int{}
@@ -342,7 +345,10 @@ func runMesh(m *mesh, keys []keyInfo) {
 		nodes[v].AddPeerStream(pubsub.PeerLinkTuple{PeerID: keys[u].id, LinkID: uint64(lid)}, false, &fakeMS{conn: cv, pid: keys[u].id})
 	}
 	hasTuple := func(node int, peer int, lid int) bool {
-		s := nodes[node].VerifSnapshot()
+		s := safeSnap(nodes[node])
+		if s == nil {
+			return true
+		}
 		for _, t := range append(s.Started, s.Pending...) {
 			if t.PeerID == keys[peer].id && t.LinkID == uint64(lid) {
 				return true
@@ -353,9 +359,15 @@ func runMesh(m *mesh, keys []keyInfo) {
 	// every subscription is announced over every link that is up, every session is executing
 	waitAnnounced := func() bool {
 		return waitFor(8*time.Second, 2*time.Millisecond, func() bool {
+			if dead() {
+				return true
+			}
 			snaps := make([]*floodsub.VerifSnapshot, n)
 			for u := 0; u < n; u++ {
-				snaps[u] = nodes[u].VerifSnapshot()
+				snaps[u] = safeSnap(nodes[u])
+				if snaps[u] == nil {
+					return false
+				}
 				if snaps[u].IncSessions != 0 || len(snaps[u].Pending) != 0 {
 					return false
 				}
@@ -408,7 +420,6 @@ func runMesh(m *mesh, keys []keyInfo) {
 	for i := 0; i < m.early; i++ {
 		doSetup(m.order[i])
 	}
-	var crashed atomic.Value
 	for _, fs := range nodes {
 		fs := fs
 		go func() {
@@ -423,15 +434,18 @@ func runMesh(m *mesh, keys []keyInfo) {
 	for i := m.early; i < len(m.order); i++ {
 		doSetup(m.order[i])
 	}
-	if !waitAnnounced() {
+	if !waitAnnounced() && !dead() {
 		m.problem = "subscriptions were not announced over all links within 8s"
 		return
 	}
 
 	quiet := func() {
 		waitFor(3*time.Second, 2*time.Millisecond, func() bool {
+			if dead() {
+				return true
+			}
 			for _, fs := range nodes {
-				if fs.VerifSnapshot().PublishQueue != 0 {
+				if sn := safeSnap(fs); sn == nil || sn.PublishQueue != 0 {
 					return false
 				}
 			}
@@ -450,16 +464,16 @@ func runMesh(m *mesh, keys []keyInfo) {
 			delete(up, ev.c)
 			// the property speaks about the mesh after it has stabilised: both sessions have ended
 			ok := waitFor(5*time.Second, time.Millisecond, func() bool {
-				return !hasTuple(ev.a, ev.b, ev.c) && !hasTuple(ev.b, ev.a, ev.c)
+				return dead() || (!hasTuple(ev.a, ev.b, ev.c) && !hasTuple(ev.b, ev.a, ev.c))
 			})
-			if !ok {
+			if !ok && !dead() {
 				m.problem = "the sessions of a closed link did not end within 5s"
 				return
 			}
 			time.Sleep(5 * time.Millisecond)
 		case "up":
 			linkUp([3]int{ev.a, ev.b, ev.c})
-			if !waitAnnounced() {
+			if !waitAnnounced() && !dead() {
 				m.problem = "subscriptions were not announced over a new link within 8s"
 				return
 			}
@@ -470,13 +484,26 @@ func runMesh(m *mesh, keys []keyInfo) {
 			cur := upList()
 			m.upAt = append(m.upAt, cur)
 			data := []byte(fmt.Sprintf("pub%d.", i))
-			if err := nodes[origin].Publish(ctx, "ch"+strconv.Itoa(ch), keys[origin].priv, data); err != nil {
-				m.problem = "publish failed: " + err.Error()
-				return
+			pubDone := make(chan error, 1)
+			go func() { pubDone <- nodes[origin].Publish(ctx, "ch"+strconv.Itoa(ch), keys[origin].priv, data) }()
+			select {
+			case err := <-pubDone:
+				if err != nil {
+					m.problem = "publish failed: " + err.Error()
+					return
+				}
+			case <-time.After(5 * time.Second):
+				if !dead() {
+					m.problem = "publish blocked for 5s"
+					return
+				}
 			}
 			reach := m.reachable(cur, origin, ch)
 			// wait for the expected deliveries (bounded), then for silence
 			waitFor(4*time.Second, time.Millisecond, func() bool {
+				if dead() {
+					return true
+				}
 				mu.Lock()
 				defer mu.Unlock()
 				for v := 0; v < n; v++ {
@@ -675,5 +702,20 @@ func c28(c *hx.Ctx) {
 		if nontriv {
 			c.Nontrivial(fmt.Sprint(m.kind, m.n, m.links, m.subs, evS))
 		}
+	}
+	// a link with stale peerChannels entries is re-established with the same tuple while the
+	// node keeps publishing: execPublish must skip the stream until it has a context (oracle only)
+	rr := c.N / 80
+	if rr < 2 {
+		rr = 2
+	}
+	relink := relinkProbe(keys, rr)
+	for i := 0; i < rr; i++ {
+		c.Eval()
+	}
+	c.Class("relink-probe")
+	for _, b := range relink {
+		c.Failf("c28-execute-panic-relink", map[string]any{"kind": "relink-probe",
+			"history": "subscribe ch; peer 1 over link 1 announces ch; second slow subscribed peer; link 1 closed (peerChannels entry of the tuple stays); 16 goroutines publish on ch; AddPeerStream with the same tuple"}, "%s", b)
 	}
 }
